@@ -322,6 +322,8 @@ class Gen:
                 f.alias = f.name + "Alias"
             if self.on("field_cons", 0.1):
                 self._field_cons(f, base)
+            elif r.random() < 0.08 and self.on("undefined", 1):
+                f.undefined = f.undef_nodefault = True  # key typed Union[X, UndefinedType]: Undefined only by construction, then omitted
             return
         # default?
         if r.random() < 0.5:
